@@ -34,11 +34,8 @@ def designs(draw, max_mods=4, max_prims=3, max_insts=4, max_w=4):
                  for p in pn]
         declared = draw(st.booleans())
         positional = (not declared) and draw(st.integers(0, 3)) == 0
-        if positional:
-            # the width of a never-declared, positionally connected port is whatever the first use
-            # implies: keep all uses one bit wide so that the design is unambiguous
-            for p in ports:
-                p["w"] = 1
+        # (the width of a never-declared, positionally connected port is whatever its uses imply:
+        # every positional use below connects the full width so that the design is unambiguous)
         prims.append({"name": name, "ports": ports, "declared": declared,
                       "positional": positional,
                       "ansi": draw(st.booleans())})
@@ -111,6 +108,28 @@ def designs(draw, max_mods=4, max_prims=3, max_insts=4, max_w=4):
                 left -= take
             return items
 
+        def expr_exact(width):
+            """items MSB first whose widths add up to exactly `width`"""
+            items = []
+            left = width
+            while left > 0:
+                if draw(st.integers(0, 5)) == 0:
+                    items.append({"const": draw(st.integers(0, 1))})
+                    left -= 1
+                    continue
+                ni = draw(st.integers(0, len(nets) - 1))
+                nm, lsb, w = nets[ni]
+                if ni >= nimp:
+                    items.append({"net": nm, "whole": True, "hi": 0, "lo": 0})
+                    left -= 1
+                    continue
+                take = draw(st.integers(1, min(w, left)))
+                lo = lsb + draw(st.integers(0, w - take))
+                items.append({"net": nm, "whole": take == w and draw(st.booleans()), "hi": lo + take - 1,
+                              "lo": lo, "scalar": w == 1 and not _is_ranged(wires, ports, nm)})
+                left -= take
+            return items
+
         insts = []
         iused = set()
         targets = [("m", j) for j in range(i)] + [("p", k) for k in range(nprims)]
@@ -129,7 +148,10 @@ def designs(draw, max_mods=4, max_prims=3, max_insts=4, max_w=4):
             if positional:
                 n = draw(st.integers(0, len(tports)))
                 for pi in range(n):
-                    e = expr(tports[pi]["w"])
+                    if kind == "p" and not prims[idx]["declared"]:
+                        e = expr_exact(tports[pi]["w"])
+                    else:
+                        e = expr(tports[pi]["w"])
                     if not e:
                         break
                     conns.append([pi, e])
@@ -450,9 +472,16 @@ def in_domain(d):
                     not it.get("whole") or it["hi"] - it["lo"] + 1 == w)
             return it["net"] in M.get("implicit", []) and it["hi"] == it["lo"]
         for inst in M.get("insts", []):
+            kind, idx = inst["target"]
+            T = mods[idx] if kind == "m" else d["prims"][idx]
             for pi, e in inst["conns"]:
                 if not all(ok(it) for it in e):
                     return False
+                if kind == "p" and not T["declared"] and inst.get("positional"):
+                    # positional use of a never-declared module: always the full width
+                    w = sum(1 if "const" in it else it["hi"] - it["lo"] + 1 for it in e)
+                    if w != T["ports"][pi]["w"]:
+                        return False
         for lhs, rhs in M.get("assigns", []):
             if lhs["hi"] - lhs["lo"] != rhs["hi"] - rhs["lo"] or not ok(lhs) or not ok(rhs) \
                     or lhs["net"] not in declared or rhs["net"] not in declared:
